@@ -17,7 +17,7 @@ LEVEL_TEXT = ("Proof: Coq theorems (for all glyph-name sets, glyphOrder lists an
               " The variation-sequence loop of setupTable_cmap is TRANSLATED from /repo's source on every run (harness/imp_from_source.py -> Generated/Imp.v) and proved equal to the model when no selector repeats (Order/UvsTied.v): sound / complete / no empty selector are restated about the translated code.")
 LEVEL_NOTE = ("Trusted: Coq kernel, hand-written model (validated by correspondence only on generated cases), AST constant reader, "
               "Python harness, fontTools cmap (de)compilation. UVS and maxp.numGlyphs are checked on the implementation only.")
-TECHNIQUE = "Coq proof (model |= spec, for all inputs; two functions translated from source on every run and proved equal to the model) + vm_compute correspondence of model and spec against ufo2ft on generated fonts"
+TECHNIQUE = "Coq proof (model |= spec, for all inputs; three code fragments translated from source on every run and proved equal to the model) + vm_compute correspondence of model and spec against ufo2ft on generated fonts"
 IMPORTS = "From U2F Require Import Base.Prelude Order.GlyphOrder."
 RULE = ("function level: random (glyph-name set, glyphOrder list) pairs incl. duplicates, unknown names, '.notdef' "
         "present/absent, fed to ufo2ft.util.makeOfficialGlyphOrder and to the Gallina glyph_order; compile level: small "
